@@ -110,3 +110,29 @@ func TestConfirmSecondExifSegmentLibraryReader(t *testing.T) {
 		t.Errorf("XMP callback got %d bytes, want %d", len(gotXmp), len(xmp)-29)
 	}
 }
+
+// C10 FILLBYTE: a marker preceded by a fill byte (FF FF E1 …, legal by T.81 B.1.1.2) was framed as a segment of type
+// 0xFF with a bogus length, and the Exif segment was not delivered.
+func TestConfirmJpegFillBytes(t *testing.T) {
+	tiffb := tiff([]ent{{0x010F, 2, 4, 0x00434241}}, new(uint32), make([]byte, 8))
+	exif := append([]byte("Exif\x00\x00"), tiffb...)
+	for _, fill := range []int{0, 1, 3} {
+		var f bytes.Buffer
+		f.Write([]byte{0xFF, 0xD8})
+		f.Write(seg(0xE0, append([]byte("JFIF\x00"), make([]byte, 9)...)))
+		f.Write(bytes.Repeat([]byte{0xFF}, fill))
+		f.Write(seg(0xE1, exif))
+		f.Write(seg(0xDB, make([]byte, 65)))
+		f.Write(make([]byte, 128))
+		calls := 0
+		err := jpeg.ScanJPEG(bytes.NewReader(f.Bytes()),
+			func(r io.Reader, h meta.ExifHeader) error {
+				calls++
+				_, err := io.CopyN(io.Discard, r, int64(h.ExifLength))
+				return err
+			}, nil)
+		if err != nil || calls != 1 {
+			t.Errorf("%d fill byte(s): Exif callback called %d time(s), err=%v", fill, calls, err)
+		}
+	}
+}
